@@ -187,18 +187,21 @@ pub fn j_offset(form: usize, neg: bool, hh: u32, mm: u32, ss: u32, out: &mut Loc
                 out.sample("c11.offset", args, format!("{text:?} -> {want}"), neg);
             }
         }
+        // the statement documents [+-]HH:MM[:SS]; the colon-less shapes are accepted by the code today but are not
+        // demanded: a refusal is a don't-care, a wrong value is not
+        Ok(Err(_)) if form == 1 || form == 2 || form == 4 => out.dc(1),
         Ok(g) => out.viol("c11.offset", format!("wrong,form{form}"), args, format!("{text:?} -> {want}"), format!("{g:?}")),
         Err(p) => out.viol("c11.offset", format!("panic:{}", p.class()), args, "no panic".into(), format!("{} {}", p.loc, p.msg)),
     }
 }
 
 pub fn run(rep: &mut Report) {
-    let q = rep.quick();
+    let deep = !rep.quick();
     let years10k: i128 = 10_000 * 36_525 * NS_DAY / 100;
-    let mut dl: Vec<i128> = lattice::dl(if q { 16 } else { 256 }, true);
+    let mut dl: Vec<i128> = lattice::dl(if deep { 1024 } else { 256 }, true);
     // every unit multiple k*U +- 0..3 for more k, both signs (the decomposition/format lattice)
     for u in lattice::UNIT_NS.iter().take(7) {
-        for k in (1..=64).chain([86, 99, 100, 101, 255, 256, 1023, 1024, 4095, 9999, 10_000, 86_399, 86_400, 100_000, 3_652_499]) {
+        for k in (1..=if deep { 4096 } else { 512 }).chain([86, 99, 100, 101, 255, 256, 1023, 1024, 4095, 9999, 10_000, 86_399, 86_400, 100_000, 3_652_499]) {
             for d in -3..=3 {
                 dl.push(k * u + d);
                 dl.push(-(k * u) + d);
